@@ -492,7 +492,7 @@ func generate(c *drv.Ctx) {
 	// (6) seeded random declarations and literals
 	n := 1500
 	if thorough {
-		n = 15000
+		n = 50000
 	}
 	for i := 0; i < n; i++ {
 		c.Case(randomCase(c.Rng))
